@@ -8,7 +8,7 @@ EXPLANATION = (
     "(recognised: clear(), del buf[:-k], buf = buf[-k:], del buf[:len(buf)-keep] with keep <= constant); (b) the marker-found-but-incomplete exit is "
     "guarded by len(buf) < start + P; (c) [BUF-PROGRESS] no path returns to the loop head without a statement that removes the buffer through "
     "start + P. Hence len(buf) <= K1 + 2R + P at every exit. [CSUM-DOM] in decode_usb the `checksum == stored byte` edge dominates _decode. "
-    "[CSUM-COVER] the checksum function sums exactly positions 2..18 and reduces & 0xff. [SER-CONST] marker bytes and packet length agree among the client, decode_usb and encode_usb. UNDECIDED: 'at most the first following "
+    "[CSUM-COVER] the checksum function sums exactly positions 2..18 and reduces & 0xff. [SER-CONST] marker bytes and packet length agree among the client, decode_usb and encode_usb. Since the third round the verdicts of BUF-BOUND / BUF-PROGRESS / SER-DELIVER / SCAN-PROGRESS come from rules_serial.py: WaveShareNmea2000Gateway._receive_impl is interpreted (absint.py) with one persistent client object on streams over three byte classes (AA, 55, a byte that is neither), cut into reads in many ways, the packet decoder replaced by an oracle that accepts exactly the stream's packets and otherwise returns None or raises; marker-free noise must cost nothing, marker-bearing noise at most the next packet, the held-back bytes stay below one read plus two packets, every call returns. CSUM-DOM / CSUM-COVER / SER-CONST are decided on decode_usb and calculate_canbus_checksum interpreted (linear-sum domain; the one undecidable comparison answered both ways). The CFG rules run as confirmation. UNDECIDED: 'at most the first following "
     "packet is lost', no loss under marker-free noise (needs stream exploration)."
 )
 ASSUMPTIONS = ["CPython ast parser", "bytearray.find returns the first occurrence or -1", "StreamReader.read(n) returns at most n bytes", "cfg.py exception-edge model"]
